@@ -1,11 +1,11 @@
 CONSTANTS
-    Chans = {1, 2}
+    Chans = {1, 2, 3}
     MaxCalls = 1
-    SrvBudget = 2
-    Ops = {"listen", "publish"}
-    SrvKinds = {"ack", "blocked"}
+    SrvBudget = 0
+    Ops = {"declare", "get", "close"}
+    SrvKinds = {}
     Faults = {}
-    ClientClose = TRUE
+    ClientClose = FALSE
     Bug = {}
 SPECIFICATION Spec
 INVARIANTS Pairing NothingAfterClose Released NoStuckCaller SlotsLive OneTerminal
